@@ -65,14 +65,35 @@ def check(rep, tier, pid):
     cfg = CFG[pid]
     if not proof_part(rep, pid):
         return
-    n = (240 if tier == "quick" else 2500)
+    # the real optimiser is quadratic in the number of files of one Compile run: the thorough tier runs
+    # several batches of 500 programs instead of one big one, and adds up what they covered
+    rounds = 1 if tier == "quick" else 5
+    n = 240 if tier == "quick" else 500
     listed = [e["id"] for e in C.known_findings(pid) if e["kind"] == "finding"]
     import cdiff
     cdiff.IMPORT_STYLES = cfg.get("imports")
     rep.coverage["import_styles"] = cfg.get("imports") or ["dot"]
-    R, progs = ccheck.run(rep, pid, cfg["feats"], n, [f for f in cfg["findings"] if f in listed], cfg["rule"], gover=cfg.get("gover", "1.21"),
-                          corpus=cfg.get("corpus"), judge_compile=cfg.get("judge", False),
-                          tapes=3 if tier == "quick" else 5)
+    total = {}
+    R = progs = None
+    for rno in range(rounds):
+        R, progs = ccheck.run(rep, pid, cfg["feats"], n, [f for f in cfg["findings"] if f in listed], cfg["rule"], gover=cfg.get("gover", "1.21"),
+                              corpus=cfg.get("corpus"), judge_compile=cfg.get("judge", False),
+                              tapes=3 if tier == "quick" else 5, round_no=rno)
+        for k, v in list(rep.coverage.items()):
+            if isinstance(v, bool) or not isinstance(v, (int, dict)):
+                continue
+            if isinstance(v, int):
+                total[k] = total.get(k, 0) + v
+            elif v and all(isinstance(x, int) and not isinstance(x, bool) for x in v.values()):
+                t = total.setdefault(k, {})
+                for kk, vv in v.items():
+                    t[kk] = t.get(kk, 0) + vv
+        if rep.violations:
+            break
+    if rounds > 1:
+        rep.coverage.update(total)
+        rep.coverage["rounds"] = rounds
+    rep.known = list(dict.fromkeys(rep.known))
     finish_tv(rep, R)
     rep.assumptions = ["generated programs call opaque, deterministic atoms (package tr); conditions are steered by a tape",
                        "the reference coroutine runtime (goroutine hand-off) is taken as the meaning of 'Yield suspends the function'"]
